@@ -202,6 +202,11 @@ class Builder:
             M = self.array({"n": r["n"], "m": r.get("m", r["n"]), "dtype": r.get("dtype", "f8"),
                             "seed": r.get("seed", 0), "sym": r.get("sym", "gen")})
             return ops.LinearOperator(M.dtype, M.shape, matmat=_Matmat(M))
+        if k == "userview":
+            # a user operator whose product is a VIEW of its argument (legal: exchange matrix J = X[::-1], or the identity
+            # written as X[:]) -- cola must not write into what an operator's product returned without owning it
+            n, dt = r["n"], DT[r.get("dtype", "f8")]
+            return ops.LinearOperator(dt, (n, n), matmat=_flip if r.get("mode", "flip") == "flip" else _alias)
         if k == "usercls":
             # a user-defined LinearOperator subclass; fresh=True re-runs the class definition (factory function called
             # again, notebook cell re-executed): a NEW class object with the same qualified name
@@ -308,6 +313,14 @@ def _rbf(x1, x2):
     world.user_fn_yield()
     d = ((x1[:, None, :] - x2[None, :, :])**2).sum(-1)
     return np.exp(-0.5 * np.abs(d))
+
+
+def _flip(X):
+    return X[::-1]
+
+
+def _alias(X):
+    return X[:]
 
 
 class _Matmat:
